@@ -1,3 +1,7 @@
+def _n(x):
+    return x if isinstance(x, int) else len(x or [])
+
+
 SPEC = {
     "id": "C13",
     "level_text": "Theorems (Coq, all address lists of any length): with the ::/64 wildcard the advertised prefixes are exactly the /64 networks of the eligible addresses (IPv6, not link-local, length 64, not temporary, not tentative), without duplicates, strictly ascending, a function of the SET of listed entries only (permutation- and multiplicity-invariant), every option carries the stanza's length, flags and (C16) lifetimes, and a listing failure is an error -- down to the rtnetlink layer: a failed netlink request (with or without messages) makes AddressesByIndex fail, hence the plugin's source, hence Apply (C13_listing_failure); a successful request yields exactly the listed addresses with the documented meaning of the IFA_F_* bits and valid-forever (C13_listing_exact). The executable models of Prefix.current/apply/Apply and of addresser.AddressesByIndex / routesByIndex are tied to the real code by differential runs on injected address lists and on scripted netlink answers.",
@@ -6,6 +10,8 @@ SPEC = {
                 {"pkg": "internal/system", "test": "TestVerifC13Addresser", "corr_module": "Corr.C13sys"},
                 # real parallelism: wildcard expansions of several interfaces at the same time
                 {"pkg": "internal/plugin", "test": "TestVerifParallelApply", "arch386": []},
+                # the whole RA: a wildcard next to static stanzas that share a base address with its expansion at another length
+                {"pkg": "internal/config", "test": "TestVerifC01", "corr_module": "Corr.C01", "env": {"VERIF_C01_SECTION": "fixed"}, "arch386": []},
                 {"pkg": "internal/plugin", "test": "TestVerifNetnsWildcards", "arch386": []}],
     "rule": "bounded-exhaustive: every sequence with repetition of length <= 3 (quick) / <= 4 (thorough) over a 14-entry pool "
             "(= all subsets x all permutations, plus all multiplicities) mixing ULA/GUA/link-local/IPv4, lengths 48/64/128, each flag, "
@@ -17,7 +23,7 @@ SPEC = {
             "entries or a failing source; distinct by canonical input.",
     "nontrivial": lambda c: (len(c.get("input", {}).get("messages") or []) >= 1 or c.get("input", {}).get("failure") != "none")
                             if "failure" in c.get("input", {})
-                            else (len(c.get("input", {}).get("addrs") or []) >= 2 or c.get("input", {}).get("source") != "ok"),
+                            else (_n(c.get("input", {}).get("addrs")) >= 2 or c.get("input", {}).get("source") != "ok"),
     "trusted": ["net/netip Masked / IsLinkLocalUnicast / Is4 are modelled by Base.IP.mask, Model.Wildcard.go_link_local and the ip_v4 flag",
                 "the plugin-level theorems take the address list as input; the rtnetlink request below system.Addresser (socket, wire format) enters "
                 "Model.Addresser as the answer of execute; IFA_F_* values are those of linux/if_addr.h (the driver passes golang.org/x/sys/unix's "
